@@ -370,6 +370,77 @@ def part_roundtrip(ctx, shard):
     ctx.sample({"roundtrip_of": shard[:3]})
 
 
+# ---- (b') persisted text: pickle / savetxt carry the unit as text + a table; what comes back denotes what was written ------
+PERSIST_UNITS = ["m", "Msun", "Msun/pc**3", "Zsun", "yr", "km/s/Mpc", "code_length", "kcode_mass", "code_length**2/yr", "degC", "µm", "erg/Msun", "sqrt(pc)"]
+
+
+def persist_registry():
+    r = rt_registry()
+    for sym, v in (("Msun", 2.0e30), ("pc", 4.0e16), ("Zsun", 0.0134), ("yr", 3.0e7)):
+        r.modify(sym, v)
+    return r
+
+
+def part_persist(ctx, shard):
+    import os
+    import pickle
+    import tempfile
+
+    import numpy as np
+
+    install_monitor()
+    world.reset_world()
+    for text in shard:
+        for regkind in ("default", "edited"):
+            if regkind == "default" and "code_" in text:
+                continue
+            reg = None if regkind == "default" else persist_registry()
+            u = Unit(text, registry=reg) if reg is not None else Unit(text)
+            sc, dim, off = unit_facts(u)
+            holders = {"unit": lambda: u, "array": lambda: unyt.unyt_array(np.array([1.0, 2.0]), u), "quantity": lambda: unyt.unyt_quantity(3.0, u)}
+            for hname, mk in holders.items():
+                for proto in (2, 3, 4, 5):  # SymPy objects refuse protocols 0 and 1
+                    ctx.count("evaluations")
+                    case = {"part": "persist", "text": text, "registry": regkind, "holder": hname, "via": f"pickle{proto}"}
+                    base = f"C20|persist|via=pickle|holder={hname}|registry={regkind}"
+                    try:
+                        back = pickle.loads(pickle.dumps(mk(), protocol=proto))
+                    except Exception as e:  # noqa: BLE001
+                        ctx.violation(base + f"|mode=round-trip-raises:{type(e).__name__}", case, None, str(e)[:100])
+                        continue
+                    bu = back if isinstance(back, Unit) else back.units
+                    ctx.decided(("persist", text, regkind, hname, proto))
+                    if str(bu) != str(u):
+                        ctx.violation(base + "|mode=text-changed", case, str(u), str(bu))
+                    f2 = unit_facts(bu)
+                    if f2[1] != dim or abs(f2[0] - sc) > 1e-12 * abs(sc) or abs(f2[2] - off) > 1e-9 * max(1.0, abs(off)):
+                        ctx.violation(base + "|mode=restored-unit-denotes-another-unit", case, (sc, str(dim), off), (f2[0], str(f2[1]), f2[2]))
+                    # the persisted TEXT read against the restored table
+                    try:
+                        f3 = unit_facts(Unit(str(bu), registry=bu.registry))
+                    except Exception as e:  # noqa: BLE001
+                        ctx.violation(base + f"|mode=persisted-text-unreadable-in-restored-registry:{type(e).__name__}", case, str(u), str(e)[:80])
+                        continue
+                    if f3[1] != dim or abs(f3[0] - sc) > 1e-12 * abs(sc):
+                        ctx.violation(base + "|mode=persisted-text-denotes-another-unit-in-restored-registry", case, (sc, str(dim)), (f3[0], str(f3[1])))
+            if regkind == "default":
+                ctx.count("evaluations")
+                fd, fn = tempfile.mkstemp(prefix="c20_", suffix=".txt", dir="/tmp")
+                os.close(fd)
+                case = {"part": "persist", "text": text, "registry": regkind, "via": "savetxt"}
+                try:
+                    unyt.savetxt(fn, [unyt.unyt_array(np.array([1.0, 2.0]), u)])
+                    back = unyt.loadtxt(fn)
+                    f2 = unit_facts(back.units)
+                    ctx.decided(("persist", text, "savetxt"))
+                    if f2[1] != dim or abs(f2[0] - sc) > 1e-12 * abs(sc) or abs(f2[2] - off) > 1e-9 * max(1.0, abs(off)):
+                        ctx.violation("C20|persist|via=savetxt|mode=restored-unit-denotes-another-unit", case, (sc, str(dim), off), (f2[0], str(f2[1]), f2[2]))
+                except Exception as e:  # noqa: BLE001
+                    ctx.violation(f"C20|persist|via=savetxt|mode=round-trip-raises:{type(e).__name__}", case, None, str(e)[:100])
+                finally:
+                    os.remove(fn)
+
+
 # ---- (a) spelling variants ------------------------------------------------------------------------------------------
 VARIANT_ATOMS = [("m", "m"), ("µm", "um"), ("Ω", "ohm"), ("Å", "angstrom"), ("g", "g"), ("s", "s"), ("degC", "°C"), ("μs", "us")]
 VARIANT_EXPS = [("-1", ["**-1", "**(-1)", "**-1.0", "**(-1.0)"]), ("2", ["**2", "**(2)", "**2.0", "** 2"]),
@@ -431,6 +502,7 @@ def run(ctx):
     probe = vocabulary_probe_names()
     harness.pmap(ctx, part_names, [probe[i : i + 100] for i in range(0, len(probe), 100)])
     harness.pmap(ctx, part_roundtrip, [[nme] for nme in RT_ALPHABET])
+    harness.pmap(ctx, part_persist, [[t] for t in PERSIST_UNITS])
     pairs = list(itertools.product(VARIANT_ATOMS, VARIANT_ATOMS))
     harness.pmap(ctx, part_variants, [pairs[i : i + 4] for i in range(0, len(pairs), 4)])
     return {
@@ -463,4 +535,6 @@ def replay(case):
         part_roundtrip(ctx, [case["u"]])
     elif part == "variants":
         part_variants(ctx, [(tuple(case["a"]), tuple(case["b"]))])
+    elif part == "persist":
+        part_persist(ctx, [case["text"]])
     return list(ctx.violations.items())
